@@ -152,6 +152,35 @@ func (c *fnCtx) run() (err error) {
 	for _, fv := range fn.FreeVars {
 		c.vals[fv] = c.freshVal(st, fv.Type(), "fv_"+fv.Name())
 	}
+	if c.sweepOnly {
+		// calling convention assumed by the safety sweep (C02 quantifies over Starlark programs and
+		// over built-in calls with arbitrary Starlark values, not over nil Go pointers):
+		// receivers, pointer and interface parameters are non-nil; the elements of an argument
+		// tuple are non-nil values; keyword arguments are (String, value) pairs.
+		for _, p := range fn.Params {
+			v := c.vals[p]
+			switch v.K {
+			case KRef:
+				c.assume(st, sNot(sEq(v.S, "nil")))
+			case KIface:
+				c.assume(st, sNot(sEq(v.S, "nilI")))
+			case KSlice:
+				env := c.newEnv(st, st)
+				env.vars["a"] = v
+				tk := typeKey(p.Type())
+				switch tk {
+				case "starlark.Tuple":
+					if t, err := env.evalBool("forall(k, 0, len(a), a[k] != nil)"); err == nil {
+						c.assume(st, t)
+					}
+				case "[]starlark.Tuple":
+					if t, err := env.evalBool("forall(k, 0, len(a), len(a[k]) == 2 && a[k][0] != nil && a[k][1] != nil && typeis(a[k][0], String))"); err == nil {
+						c.assume(st, t)
+					}
+				}
+			}
+		}
+	}
 	if c.con != nil {
 		for i, a := range c.con.Aliases {
 			if i < len(fn.Params) {
